@@ -334,7 +334,7 @@ def runCmd (cfg : Cfg) (s : S α) (c : Cmd) (src pt : Int) : S α :=
   if c.op == 'A' then (List.range c.b.toNat).foldl (fun s _ => attack cfg s src (resolve cfg s c.sel src pt) c.a.toNat) s
   else if c.op == 'E' then endAttack s
   else if c.op == 'H' then (resolve cfg s c.sel src pt).foldl (fun s t => heal s src t) s
-  else if c.op == 'C' then hpPrim s src src
+  else if c.op == 'C' then (resolve cfg s c.sel src pt).foldl (fun s t => hpPrim s t src) s
   else if c.op == 'I' then enqueue s src c.b (c.c != 0) (.ability c.a.toNat pt)
   else if c.op == 'T' then (resolve cfg s c.sel src pt).foldl (fun s t => insertAction cfg s t) s
   else if c.op == 'G' then (resolve cfg s c.sel src pt).foldl (fun s t => setGauge s t (Num.ofInt c.a)) s
